@@ -1093,4 +1093,104 @@ theorem csv_runChunks (cfg : CsvCfg) (s : CsvState) (cs : List Bytes)
         · exact Or.inl h1
     simp only [runChunks, hfeed, List.flatten_cons, runBytes_append]
     rw [ih _ hnext]
+
+/-! ## JSON: the full bulk loop -/
+
+theorem scanAbsorb_nil (s : JState) : scanAbsorb s [] = s := by
+  unfold scanAbsorb; split <;> simp [pushBytes_nil]
+
+/-- the bulk scan of any arm equals stepping through the scanned run -/
+theorem json_scan_run (cfg : JCfg) (s : JState) (run : Bytes) (he : s.err = none)
+    (hr : ∀ b ∈ run, scanPred s b = true) :
+    runBytes (jStep cfg) s run = (scanAbsorb s run, []) := by
+  cases run with
+  | nil => simp [runBytes, scanAbsorb_nil]
+  | cons x xs =>
+    match hs : s.stack with
+    | .string :: rest =>
+      have := json_string_run cfg s rest (x :: xs) he hs (fun b hb => by
+        have := hr b hb; simp [scanPred, hs] at this; exact this)
+      simp [this, scanAbsorb, hs]
+    | .number :: rest =>
+      have := json_number_run cfg s rest (x :: xs) he hs (fun b hb => by
+        have := hr b hb; simpa [scanPred, hs] using this)
+      simp [this, scanAbsorb, hs]
+    | [] =>
+      have := json_skip_run cfg s (x :: xs) he (fun b hb => by
+        have := hr b hb; simpa [scanPred, skipsByte, hs] using this)
+      simp [this, scanAbsorb, hs]
+    | .topLevelList :: rest =>
+      have := json_skip_run cfg s (x :: xs) he (fun b hb => by
+        have := hr b hb; simpa [scanPred, skipsByte, hs] using this)
+      simp [this, scanAbsorb, hs]
+    | .object st :: rest =>
+      have := json_skip_run cfg s (x :: xs) he (fun b hb => by
+        have := hr b hb; simpa [scanPred, skipsByte, hs] using this)
+      simp [this, scanAbsorb, hs]
+    | .list st :: rest =>
+      have := json_skip_run cfg s (x :: xs) he (fun b hb => by
+        have := hr b hb; simpa [scanPred, skipsByte, hs] using this)
+      simp [this, scanAbsorb, hs]
+    | .value :: rest =>
+      have := json_skip_run cfg s (x :: xs) he (fun b hb => by
+        have := hr b hb; simpa [scanPred, skipsByte, hs] using this)
+      simp [this, scanAbsorb, hs]
+    | .colon :: rest =>
+      have := json_skip_run cfg s (x :: xs) he (fun b hb => by
+        have := hr b hb; simpa [scanPred, skipsByte, hs] using this)
+      simp [this, scanAbsorb, hs]
+    | .escape :: rest => have := hr x (by simp); simp [scanPred, hs] at this
+    | .unicode _ _ _ :: rest => have := hr x (by simp); simp [scanPred, hs] at this
+    | .literal _ _ :: rest => have := hr x (by simp); simp [scanPred, hs] at this
+
+theorem jIter_halt (cfg : JCfg) (s : JState) (b : Nat) (bs : Bytes)
+    (hz : (jIter cfg s (b :: bs)).2.2 = 0) :
+    runBytes (jStep cfg) s (b :: bs) = ((jIter cfg s (b :: bs)).1, (jIter cfg s (b :: bs)).2.1) := by
+  unfold jIter at hz ⊢
+  by_cases he : s.err.isSome = true
+  · simp [he, json_err_absorb]
+  · simp only [he, Bool.false_eq_true, ↓reduceIte] at hz ⊢
+    exfalso
+    split at hz
+    · rename_i h
+      have hl := congrArg List.length h
+      simp only [List.length_drop, List.length_cons, List.length_nil] at hl
+      simp only at hz
+      omega
+    · simp at hz
+
+theorem jIter_run (cfg : JCfg) (s : JState) (b : Nat) (bs : Bytes)
+    (hz : (jIter cfg s (b :: bs)).2.2 ≠ 0) :
+    runBytes (jStep cfg) s ((b :: bs).take (jIter cfg s (b :: bs)).2.2) =
+      ((jIter cfg s (b :: bs)).1, (jIter cfg s (b :: bs)).2.1) := by
+  unfold jIter at hz ⊢
+  by_cases he : s.err.isSome = true
+  · simp [he] at hz
+  · have he' : s.err = none := by
+      cases h : s.err with
+      | none => rfl
+      | some e => simp [h] at he
+    simp only [he, Bool.false_eq_true, ↓reduceIte] at hz ⊢
+    have hrun := json_scan_run cfg s ((b :: bs).takeWhile (scanPred s)) he' (mem_takeWhile_sat _ _)
+    have hsplit := List.take_append_drop ((b :: bs).takeWhile (scanPred s)).length (b :: bs)
+    rw [take_takeWhile_length] at hsplit
+    split
+    · rename_i h
+      simp only
+      rw [take_takeWhile_length, hrun]
+    · rename_i c rest h
+      simp only
+      have hb : (b :: bs) = (b :: bs).takeWhile (scanPred s) ++ c :: rest := by
+        rw [← h]; exact hsplit.symm
+      have htake : (b :: bs).take (((b :: bs).takeWhile (scanPred s)).length + 1) =
+          (b :: bs).takeWhile (scanPred s) ++ [c] := by
+        conv => lhs; arg 2; rw [hb]
+        rw [List.take_length_add_append]; simp
+      rw [htake, runBytes_append, hrun]
+      simp [runBytes]
+
+/-- **Refinement (JSON), full loop.** -/
+theorem jFeedBulk_eq_runBytes (cfg : JCfg) (s : JState) (chunk : Bytes) :
+    jFeedBulk cfg s chunk = runBytes (jStep cfg) s chunk :=
+  bulkLoop_eq_runBytes (jIter cfg) (jStep cfg) (jIter_halt cfg) (jIter_run cfg) s chunk
 end ArrowModel.C14
